@@ -353,7 +353,7 @@ impl Space for Long {
 }
 
 /// The same through ElfBytes: a SHT_NOTE section (sh_addralign) and a PT_NOTE segment (p_align).
-struct ThroughFile;
+pub struct ThroughFile;
 impl ThroughFile {
     fn dims() -> [u64; 4] {
         // align (incl. 0), enc, namesz, descsz
